@@ -171,7 +171,7 @@ def check_sfb1d(cfg, sizes, rnd):
     m = 'periodization' if mode == 'per' else mode
     Nc = lo.shape[d]
     EFF.clear()
-    EFF.update(N=2 * int(Nc), Lc=L, J=1)          # analysis-side length of the filtered axis
+    EFF.update(N=2 * int(Nc), Lc=L, J=1, synth1=True)          # analysis-side length of the filtered axis
     if m != 'periodization' and 2 * Nc - L + 2 < 1:
         return True, 'outside precondition (empty output)'
     try:
